@@ -68,6 +68,8 @@ def check(ctx):
     ok = bool(mask) and "1 if ii in atom_indices else 0" in src(mask[0].value) and "range(traj.n_atoms)" in src(mask[0].value)
     ctx.decide(ok, "C13-R2", mask[0] if mask else fn, SP, "shrake_rupley", "mask[i] = 1 iff i in atom_indices", "", "the selection mask is not the indicator of atom_indices over all atoms")
     ctx.rule("C13-R5", "quadrature points are the golden-section spiral (y_i = (2i+1)/n - 1, r = sqrt(1-y^2), phi = i*pi*(3-sqrt5)); the blocker pre-filter keeps exactly the atoms with r2 < (R_i+R_j)^2")
+    from .c05 import no_foreign_attribute_stores
+    no_foreign_attribute_stores(ctx, "C13-R2", [SP], floor=1)
     r5(ctx, cf)
     # ---- R2/R3 C++ side
     af = cf.function(SC, "asa_frame")
